@@ -17,12 +17,14 @@ ASSUME = [
     "at most 8096 samples per aggregation bin (reservoir replacement is order dependent); float values are multiples of 1/16 "
     "with sums below 2^53 (exact arithmetic)",
     "file-system model of crashfs: directory operations durable in issue order, file data durable up to the last fsync",
-    "the corpus does not change between start and completion of the request; one request at a time (Parallelism 1)",
+    "fractions that existed at start are not removed and do not change before the request completes (new fractions may "
+    "appear: ingest/rotation after a restart is part of the crash chains); one request at a time (Parallelism 1)",
 ]
 RULE = ("worlds = corpus in 0..4 real fractions (sealed/active, some IDs stored in two fractions, JSON-hostile group tokens, "
         "exact decimal values) x query x histogram interval x 0..2 aggregations x order x limit; per world the uninterrupted "
         "run (operation sequence, acknowledgement position, async = sync) and restarts on crash states: after k operations, "
-        "a write cut short, power loss, and second crashes inside the resumed run. non-trivial = at least 2 fractions, "
+        "a write cut short, power loss, second crashes inside the resumed run, and restarts before which new matching documents "
+        "are ingested into a new (optionally sealed) fraction. non-trivial = at least 2 fractions, "
         "histogram or aggregation requested, and (for crash cases) the request published but not done at the crash; "
         "distinct by input")
 
